@@ -725,6 +725,24 @@ theorem explicit_mode_i32 {sha256hex : Bytes → Bytes} {valid : Bytes → Bool}
     (hpost : ∀ s ∈ post, s.isMode = false) (h : runCall sha256hex valid c = .ok e) : e.mode = asU16 n := by
   rw [explicit_mode_wins pre post _ hc hpost h, rawMode_fromI32]
 
+/-- **header mode = cpio mode, for EVERY `i32` given to `mode(..)`** (also those outside 16 bits, which `From<i32>` turns into
+`FileMode::Invalid { raw_mode }`): the RPMTAG_FILEMODES word (`u16::from`) and the cpio `c_mode` (`u32::from`) `prepare_data`
+derives from the stored mode are the same 16-bit word, the integer's low 16 bits — e.g. `mode(0o271664)` is 0o071664 in both
+places, `mode(-1)` is 0o177777, `mode(65536 + 0o100644)` is 0o100644 -/
+theorem mode_header_eq_cpio (n : Int) :
+    cpioModeWord (fromI32 n) = headerModeWord (fromI32 n) ∧ headerModeWord (fromI32 n) = asU16 n ∧ asU16 n < 65536 :=
+  ⟨rfl, rawMode_fromI32 n, asU16_lt n⟩
+
+/-- … and that word is what the entry of a call whose last `mode(..)` is `mode(n)` stores (hence what `readback_modes` returns
+and what the archive entry carries) -/
+theorem mode_header_eq_cpio_stored {sha256hex : Bytes → Bytes} {valid : Bytes → Bool} {c : Call} {e : FileE}
+    (pre post : List Setter) (n : Int) (hc : c.setters = pre ++ .mode (fromI32 n) :: post)
+    (hpost : ∀ s ∈ post, s.isMode = false) (h : runCall sha256hex valid c = .ok e) :
+    e.mode = headerModeWord (fromI32 n) ∧ e.mode = cpioModeWord (fromI32 n) ∧ e.mode = asU16 n ∧ e.mode < 65536 := by
+  have h1 := explicit_mode_i32 pre post n hc hpost h
+  obtain ⟨a, b, c'⟩ := mode_header_eq_cpio n
+  exact ⟨by rw [h1, b], by rw [h1, a, b], h1, by rw [h1]; exact c'⟩
+
 theorem readback_verifyflags (x : Ctx) (hne : x.c.files.isEmpty = false) :
     getU32Array (hdrOf x) IndexTag.RPMTAG_FILEVERIFYFLAGS = .ok (x.c.files.map (·.verifyFlags)) :=
   readback_file_array x IndexData.asU32Array (i := 34) rfl hne rfl
@@ -848,6 +866,10 @@ example : entryA.mode = 0o100000 ||| 0o4755 ∧ fromU16 entryA.mode = .regular 0
 example : entryB.mode = rawMode (fromI32 0o100644) :=
   explicit_mode_wins (c := callB) [] [.group [103], .caps [61, 112], .verify 3] _ rfl (by decide)
     (show runCall (fun _ => sha64) (fun _ => true) callB = .ok entryB by decide)
+/-- `mode_header_eq_cpio` at the words of the seeded change C09-7 and its neighbours -/
+example : headerModeWord (fromI32 0o271664) = 0o071664 ∧ cpioModeWord (fromI32 0o271664) = 0o071664 ∧
+    headerModeWord (fromI32 2147483647) = 65535 ∧ headerModeWord (fromI32 (-1)) = 65535 ∧ headerModeWord (fromI32 (-32769)) = 32767 ∧
+    headerModeWord (fromI32 (65536 + 0o100644)) = 0o100644 ∧ fromI32 0o271664 = .invalid 0o271664 := by decide
 /-- a FIFO source is read and stored with the FIFO's own mode word 0o010644 (not a type `FileMode` knows) -/
 example : (withFile (fun _ => sha64) (.readable srcFifo) (FileOpts.new [47, 97])).toOption.map (·.mode) = some 0o010644 := by decide
 /-- `with_file_readback` / `readback_flags_of_setters` at the sample configuration -/
